@@ -21,6 +21,7 @@ RULE += (" " + 'Also: the shared library has a relative import of its own and fi
 RULE += (" " + 'Every command-line file also exports a function, a module and a tuple; files that import another command-line file call, instantiate and read them (also through map).')
 RULE += (" " + 'In 20 % of the projects the shared library names an unloadable file (syntax error, type error, missing) in a place that is never evaluated, also one import further down.')
 RULE += (" " + 'In another 16 % of the projects the shared library fails at run time after making its bindings (division by zero, fail, index, select, cast, failing out).')
+RULE += (" " + 'Round 8: four more kinds of command-line file carry assert statements (holding, false, malformed, in an imported library); a build evaluates them like any statement and makes the same of them alone and in every batch.')
 
 KINDS = ["entry", "entry-imports-lib", "entry-imports-local-lib", "entry-imports-local-lib", "entry-imports-entry", "lib-no-out", "syntax-error", "type-error", "runtime-error",
          "failing-out", "entry-yaml", "include-user",
